@@ -97,6 +97,7 @@ from apischema.objects.fields import FieldKind
 from apischema.objects.visitor import DeserializationObjectVisitor
 from apischema.recursion import RecursiveConversionsVisitor
 from apischema.schemas import Schema, get_schema
+from apischema.tagged_unions import TaggedUnion
 from apischema.types import PRIMITIVE_TYPES, AnyType, NoneType
 from apischema.typing import get_args, get_origin, is_type, is_typed_dict, is_union
 from apischema.utils import (
@@ -440,11 +441,15 @@ class DeserializationMethodVisitor(
                     requiring[req].add(alias_by_name[f])
             normal_fields, flattened_fields, pattern_fields = [], [], []
             additional_field = None
+            # exactly one tag of a tagged union must be valid: no default to fall back on
+            tagged_union = isinstance(cls, type) and issubclass(cls, TaggedUnion)
             for field, field_factory in zip(fields, field_factories):
                 field_method: DeserializationMethod = field_factory.method
                 fall_back_on_default = (
-                    field.fall_back_on_default or self.fall_back_on_default
-                ) and not field.required
+                    (field.fall_back_on_default or self.fall_back_on_default)
+                    and not field.required
+                    and not tagged_union
+                )
                 if field.flattened:
                     flattened_aliases = get_deserialization_flattened_aliases(
                         cls, field, self.default_conversion
